@@ -449,6 +449,14 @@ def model_view(snap):
 KEY_OF_CAUSE = {"cancel-at-1": "c11-cancel-at-1", "cancel-at-2": "c11-cancel-at-2", "overlap": "c11-overlap"}
 
 
+def disagree(ctx, *a):
+    """record at most 60 disagreements; the oracle keeps being evaluated on every history regardless"""
+    if len(ctx.disagreements) < 60:
+        ctx.disagree(*a)
+    else:
+        ctx.count("disagreements_not_recorded", 1)
+
+
 def check_driver(ctx, d, msnaps, stream):
     """compare the real snapshots with the model's, evaluate the oracle; returns True when all agree"""
     ctx.traces_impl += 1
@@ -464,10 +472,10 @@ def check_driver(ctx, d, msnaps, stream):
         mcmp = {x: mv[x] for x in ("pool", "sessions", "orphans", "codes")}
         if rv != mcmp:
             ok = False
-            ctx.disagree(stream, {"ports": d.ports, "actions": d.actions[: k + 1]}, repr(mcmp), repr(rv))
+            disagree(ctx, stream, {"ports": d.ports, "actions": d.actions[: k + 1]}, repr(mcmp), repr(rv))
         if sorted(real["missing"]) != mv["lost"]:
             ok = False
-            ctx.disagree(stream + "-lost", {"ports": d.ports, "actions": d.actions[: k + 1]}, repr(mv["lost"]), repr(real["missing"]))
+            disagree(ctx, stream + "-lost", {"ports": d.ports, "actions": d.actions[: k + 1]}, repr(mv["lost"]), repr(real["missing"]))
         # property oracle on the real objects: anything newly lost, duplicated or orphaned by this action?
         missing = collections.Counter(real["missing"])
         newly = missing - prev_missing
@@ -505,11 +513,11 @@ def check_driver(ctx, d, msnaps, stream):
         prev_orphans = list(real["orphans"])
     if len(msnaps) != len(d.snaps):
         ok = False
-        ctx.disagree(stream, {"ports": d.ports, "actions": d.actions}, f"{len(msnaps)} snapshots", f"{len(d.snaps)} snapshots")
+        disagree(ctx, stream, {"ports": d.ports, "actions": d.actions}, f"{len(msnaps)} snapshots", f"{len(d.snaps)} snapshots")
     for msg, exc in d.log:
         if exc not in ("OSError", "PermissionError", "ConnectionResetError", "TimeoutError", "BrokenPipeError", "ConnectionError"):
             ok = False
-            ctx.disagree(stream + "-log", {"ports": d.ports, "actions": d.actions}, "no unexpected exception", f"{msg}: {exc}")
+            disagree(ctx, stream + "-log", {"ports": d.ports, "actions": d.actions}, "no unexpected exception", f"{msg}: {exc}")
     return ok
 
 
@@ -755,7 +763,7 @@ def correspondence(ctx, budget=None):
             xcheck.append((0, case[1], ms))
         if stream == "random":
             ctx.sample({"ports": d.ports, "actions": d.actions})
-        if len(ctx.violations) > 20 or len(ctx.disagreements) > 40:
+        if len(ctx.violations) > 20:
             break
     for k, v in sorted(kinds.items()):
         ctx.count("action:" + k, v)
